@@ -70,9 +70,11 @@ def check_law(case):
             f.expect(ec.on_curve(seq(got)), f"add/result-off-curve/{kind}")
     elif op == "mul":
         k, b = case["k"], case["b"]
-        Pt = _pt(b) if b % N else ec.G
+        Pt = _pt(b)  # b = 0 mod n: the identity as the point operand
         sc = _scalar_class(k)
         cls.append("nt:scalar-" + sc if sc != "generic" else "scalar-generic")
+        if Pt is None:
+            cls.append("nt:mul-identity-operand")
         want = ec.mul(k, Pt)
         got = attempt(em.point_scalar_mul, k, Pt)
         f.expect(not raised(got) and got == want, f"mul/ne-reference/{sc}", repr(got)[:120])
@@ -90,7 +92,9 @@ def check_law(case):
         Pt = _pt(c) if c % N else ec.G
         cls.append("nt:identity-assoc")
         inner = attempt(em.point_scalar_mul, b, Pt)
-        lhs = attempt(em.point_scalar_mul, a, inner) if not raised(inner) and inner is not None else (None if inner is None else inner)
+        if inner is None:
+            cls.append("nt:mul-identity-operand")
+        lhs = attempt(em.point_scalar_mul, a, inner) if not raised(inner) else inner
         rhs = attempt(em.point_scalar_mul, a * b, Pt)
         f.expect(not raised(lhs) and not raised(rhs) and lhs == rhs, "identity/a(bP)!=(ab)P", f"{lhs!r} {rhs!r}"[:160])
         f.expect(not raised(rhs) and rhs == ec.mul(a * b, Pt), "mul/ne-reference/product", repr(rhs)[:100])
@@ -132,8 +136,6 @@ def check_small(case):
                 f.add(f"small/add-ne-reference/{kind}", f"p={p} {A}+{B}: {got!r} want {want}")
                 break
     elif mode == "scalars":
-        if A is None:
-            return cls, f
         for k in range(0, 3 * n + 1):
             want = ec.mul(k, A, p)
             got = attempt(em.point_scalar_mul, k, A)
@@ -241,7 +243,7 @@ def law_cases(draw):
         return {"op": op, "a": a, "b": b}
     if op == "mul":
         k = draw(st.one_of(s, st.integers(2**256, 2**258)))
-        return {"op": op, "k": k, "b": draw(s)}
+        return {"op": op, "k": k, "b": draw(st.sampled_from([0, N]) | s if draw(st.integers(0, 7)) == 0 else s)}
     if op in ("distrib", "assoc"):
         return {"op": op, "a": draw(s), "b": draw(st.sampled_from([0, 1, N - 1]) | s), "c": draw(s)}
     return {"op": op, "a": draw(s), "dx": draw(st.sampled_from([0, 0, 1]) | st.integers(0, P - 1)), "dy": draw(st.sampled_from([0, 1, 2]))}
@@ -279,7 +281,7 @@ def enum_keygen(tier):
 def targets(tier):
     return [
         Target("law-secp", check_law, strategy=lambda tier: law_cases(), budget={"quick": 640, "thorough": 10000},
-               required=["nt:pair-identity", "nt:pair-doubling", "nt:pair-inverse", "nt:pair-same-or-negated-y-different-x", "nt:scalar-boundary", "nt:identity-distrib", "nt:identity-assoc", "nt:off-curve"]),
+               required=["nt:pair-identity", "nt:pair-doubling", "nt:pair-inverse", "nt:pair-same-or-negated-y-different-x", "nt:scalar-boundary", "nt:identity-distrib", "nt:identity-assoc", "nt:off-curve", "nt:mul-identity-operand"]),
         Target("law-small", check_small, enumerate_=enum_small, exhaustive=True),
         Target("privkey", check_privkey, strategy=lambda tier: privkey_cases(), budget={"quick": 1500, "thorough": 30000},
                required=["nt:invalid-len", "nt:invalid-range", "nt:valid-boundary-or-leading-zero"]),
